@@ -280,6 +280,9 @@ func longString(n int, seed int) string {
 // generation is sequential, so this is a pure function of the draws).
 var bigLeft int
 
+// hugeLeft bounds the number of > 1 MiB payloads per case the same way.
+var hugeLeft int
+
 // excludeHook counts input classes the generator avoids by construction (kit.Rec.Exclude).
 var excludeHook func(class string)
 
@@ -403,7 +406,14 @@ func genBytes(t *rapid.T, label string) []byte {
 	case 2:
 		return []byte{0}
 	case 3:
-		n := rapid.SampledFrom([]int{126, 127, 128, 129, 300, 4090, 4096, 5000, 16384, 20000}).Draw(t, label+"/len")
+		n := rapid.SampledFrom([]int{126, 127, 128, 129, 300, 4090, 4096, 5000, 16384, 20000, 1<<20 + 1, 1500000, 1<<21 + 77}).Draw(t, label+"/len")
+		if n > 1<<20 {
+			// larger than ReadMessage's first buffer: the buffer is grown while the message is read
+			if hugeLeft <= 0 {
+				n = 5000
+			}
+			hugeLeft--
+		}
 		if n >= 4000 {
 			if bigLeft <= 0 {
 				n = 300
